@@ -77,7 +77,7 @@ class Check:
 
     def note(self, s):
         self.notes.append(s)
-        print(f"[{self.prop}] {s}", flush=True)
+        print(f"[{self.prop} +{time.time() - self.t0:.0f}s] {s}", flush=True)
 
     # ---- verdicts
     def violation(self, clause, what, replay, signature=None):
